@@ -207,7 +207,7 @@ def gen(ctx):
     edges = st.sampled_from(["HD", "NK", "SB", "--", "OA", "HD"])
     labels = st.sampled_from(["S", "NP", "VP", "PP", "AP", "X"])
     pos = st.sampled_from(["NN", "VVFIN", "ART", "ADJA", "APPR", "$,"])
-    base = S.tree_model(max_tokens=9 if quick else 14, disc=0.85, edges=edges, labels=labels, pos=pos, max_arity=4)
+    base = S.tree_model(min_tokens=3, max_tokens=9 if quick else 14, disc=0.9, disc_step=0.8, edges=edges, labels=labels, pos=pos, max_arity=4)
 
     def body(case):
         res = check(case)
